@@ -186,8 +186,8 @@ func (d *txDeco) List(ctx context.Context) ([]*configapi.Transaction, error) {
 func (d *txDeco) Watch(ctx context.Context, ch chan<- configapi.TransactionEvent, opts ...transaction.WatchOption) error {
 	d.inc.gate("tx.Watch", false)
 	if t := currentTaskObj(); t != nil && t.Ctl == "handler" {
-		if h := d.inc.w.HandlerWatch; h != nil {
-			return h(ctx, ch, func(c chan<- configapi.TransactionEvent) error { return d.inner.Watch(ctx, c, opts...) })
+		if h := d.inc.w.handlerWatch.Load(); h != nil {
+			return (*h)(ctx, ch, func(c chan<- configapi.TransactionEvent) error { return d.inner.Watch(ctx, c, opts...) })
 		}
 	}
 	owner := watchOwner()
